@@ -81,7 +81,25 @@ def subchecks(tier):
           "self_loops": 0.3, "inf": 0.1, "schedule": 0.15, "reneging": 0.2, "zero_servers": 0.1, "cc_after": 0.1, "sched_preempt": 0.0}
     bprof = S.Profile(BAULK_ALLOWED, weights=wb, required=("baulking",), numeric="mixed", max_nodes=3, max_classes=3,
                       plans=("max_time", "max_customers"), horizon=(5.0, 14.0), budget=600, load="heavy")
+    # customers whose service has started no longer renege, also after that service is interrupted: pre-emptive priorities (three levels, so
+    # that a pre-emptor can itself be pre-empted) and pre-emptive schedules at reneging nodes
+    wp = {"reneging": 1.0, "priorities": 1.0, "prio_preempt": 1.0, "schedule": 0.3, "sched_preempt": 0.6, "capacity": 0.2, "batching": 0.3,
+          "cc_waiting": 0.15, "discipline": 0.2, "self_loops": 0.3, "routing_objects": 0.3, "zero_service": 0.2, "server_priority": 0.1}
+    renp = S.Profile(list(wp), weights=wp, required=("reneging", "priorities", "prio_preempt"), numeric="mixed", max_nodes=2, max_classes=3,
+                     plans=("max_time",), horizon=(6.0, 16.0), budget=600, load="heavy", excluded=common.KNOWN_EXCLUSIONS)
+
+    def nt_renp(a, spec, res):
+        return a.get("reneges", 0) >= 1 and a.get("rec_interrupted_service", 0) >= 1
+
+    def cl_renp(a, spec, res):
+        out = [k for k in ("races", "rec_interrupted_service", "obs_preempt", "ev_shift_change") if a.get(k)]
+        if len(set(c.get("priority", 0) for c in spec["classes"])) >= 3:
+            out.append("three_priority_levels")
+        return out
     return [
+        system_subcheck("reneging_preempt", renp, lambda spec: [Patience(spec)], nt_renp, classes=cl_renp, obs=True, log=True,
+                        n={"quick": 3600, "thorough": 20000},
+                        rule="reneging at nodes with pre-emptive priorities / schedules: an interrupted customer has started service and never reneges"),
         system_subcheck("reneging", ren, lambda spec: [Patience(spec)], nt_ren, classes=cl_ren, obs=False, log=True,
                         n={"quick": 7200, "thorough": 40000}, rule="logged patience vs renege/service records; overdue monitor"),
         SubCheck("baulking", baulk_execute_factory(bprof), strategy=S.netspec(bprof), n={"quick": 6000, "thorough": 30000},
